@@ -126,6 +126,8 @@ pub fn ops_from_trace(trace: &[Item]) -> (Vec<Op>, Vec<Vec<Event>>, Vec<Vec<Even
   for it in trace {
     match it {
       Item::Poll { res, .. } => { after_timeout = matches!(res, PollRes::TimedOut); }
+      // an event the reader made up is no event of the physical keyboard: whatever it causes is charged to the op before it
+      Item::NextK { res: Some(_), phantom: true, .. } => { after_timeout = false; }
       Item::NextK { res: Some(e), .. } => { after_timeout = false; ops.push(if tablet { Op::Unseen(e.clone()) } else { Op::Ev(e.clone()) }); outs.push(vec![]); chords.push(vec![]); }
       Item::NextT { res: Some(on), .. } => { after_timeout = false; tablet = *on; ops.push(Op::Reset); outs.push(vec![]); chords.push(vec![]); }
       Item::Send { evs, .. } => {
